@@ -951,6 +951,10 @@ class Executor:
             st.bb = nb
             return [st]
         m = re.match(r"^(.*)\((.*)\) -> unwind.*$", s)
+        if m and k >= 0 and "[return:" not in s:
+            # diverging call with a (never written) destination:  _5 = panic_fmt(..) -> unwind continue
+            m = re.match(r"^(.*)\((.*)\) -> unwind.*$", s[k + 3:])
+            k = -1
         if m and k < 0:
             # diverging call (panic!, todo!, unreachable!, handle_alloc_error ...)
             path.panics = "diverging call: " + short(m.group(1))
